@@ -32,7 +32,7 @@ let rec show_rtree (t : rtree) : string =
   | RPre (x, tok, a) -> "P" ^ d x ^ "." ^ n tok ^ "(" ^ show_rtree a ^ ")"
   | RSuf (x, tok, a) -> "S" ^ d x ^ "." ^ n tok ^ "(" ^ show_rtree a ^ ")"
   | RBin (x, tok, l, r) -> "B" ^ d x ^ "." ^ (match tok with None -> "-" | Some k -> n k) ^ "(" ^ show_rtree l ^ "," ^ show_rtree r ^ ")"
-  | RGroup (tok, a) -> "G" ^ n tok ^ "(" ^ show_rtree a ^ ")"
+  | RGroup (b, tok, a) -> (match b with BRound -> "G" | BCurly -> "N") ^ n tok ^ "(" ^ show_rtree a ^ ")"
 
 let () =
   iter_lines (fun line ->
